@@ -137,6 +137,8 @@ fn generate_registry(g: &mut G) -> Scenario {
         let j = g.below(i as u64 + 1) as usize;
         tail.swap(i, j);
     }
+    // sometimes nothing at all looks at the dead instance before the registry is asked again
+    tail.truncate(g.below(4) as usize);
     ops.extend(tail);
     if g.chance(1, 2) {
         ops.push(Op::FromRegistry { svc, to: 1 });
